@@ -227,8 +227,8 @@ def main(argv=None):
         mine = [r for r in res if r.get("section") == si]
         rep.add_results(nm, mine, sum(1 for it in items if it["section"] == si) - len(mine), exhaustive=False)
     import superrec2.render.layout as L, superrec2.render.tikz as T, superrec2.model.reconciliation as M
-    rep.functions = R.source_digest(L.compute, L._compute_branches, L._add_losses, L._layout_branches, L._layout_subtrees, L._finalize_layout,
-                                    T.render, T._tikz_draw_branches, T._tikz_draw_fork, M.ReconciliationOutput.node_event)
+    rep.functions = R.safe_digest(lambda: R.source_digest(L.compute, L._compute_branches, L._add_losses, L._layout_branches, L._layout_subtrees, L._finalize_layout,
+                                    T.render, T._tikz_draw_branches, T._tikz_draw_fork, M.ReconciliationOutput.node_event))
     rep.bounds = {"reconciliations": f"seeded inputs: {n3} with 2-3 object leaves ({'up to 8' if q else 'all'} valid reconciliations each, from the independent "
                                      f"enumerator), {n4} with 4 leaves, {n5} with 5-{6 if q else 8} leaves; with and without synteny labels; both orientations",
                   "numeric": "node widths/heights positive reals (per node up to 4 leaves, per node kind above)"}
